@@ -59,8 +59,8 @@ THEOREMS = [
 ]
 RULE = (
     "translator: the hard-criteria statements of the six run() bodies are regenerated into Lean on every run and the "
-    "sequencing theorems re-checked by the kernel (its fail-closed rule is self-tested on the current sources: ~95 kinds of "
-    "unmodelled writes inserted into each run() must be refused); correspondence: gen.HC_damp/HC_cov/HC_conj/HC_phi_comp/applymask vs the "
+    "sequencing theorems re-checked by the kernel (its fail-closed rule is self-tested on the current sources: 73 kinds of "
+    "unmodelled writes / mutations / aliases inserted into each run() must be refused, 11 read-only ones and a renaming accepted); correspondence: gen.HC_damp/HC_cov/HC_conj/HC_phi_comp/applymask vs the "
     "Lean cell models on random NaN-bearing tables (exact); oracle: real runs of SSIdat/SSIcov(+uncertainty)/SSIdat_MS/"
     "SSIcov_MS/pLSCF/pLSCF_MS on small random data with random criteria, the unfiltered solution captured from the pole "
     "routine, every cell judged from the property statement. distinct = (class, conj, criteria that actually rejected a pole)"
